@@ -8,6 +8,7 @@ import sys
 import numpy
 
 ITER_CAP = 400
+WORK_CAP = int(__import__('os').environ.get('VERIF_DIV_WORK_CAP', '60000'))  # stored coefficients visited by one division
 
 
 class DivisionLoop(BaseException):
@@ -24,6 +25,8 @@ class _Monitor:
         self.seen = None
         self.trace = None
         self.progress = {}
+        self.work = 0
+        self.max_work = 0
         self.last_iterations = 0
         self.last_steps = 0
         self.installed = False
@@ -33,6 +36,7 @@ class _Monitor:
         self.seen = None
         self.trace = None
         self.progress = {}
+        self.work = 0
 
 
 MON = _Monitor()
@@ -71,26 +75,29 @@ def install():
                 MON.reset()
                 raise DivisionLoop("repeated-state", tr)
             MON.seen.add(d)
-            if len(MON.trace) > ITER_CAP:
+            MON.work += len(x1.keys) * max(1, int(numpy.prod(x1.shape, dtype=int)))
+            MON.max_work = max(MON.max_work, MON.work)
+            if len(MON.trace) > ITER_CAP or MON.work > WORK_CAP:
                 tr = MON.trace
                 MON.reset()
                 raise DivisionLoop("cap-without-repeat", tr)
         res = orig_cand(x1, x2, *a, **k)
         if MON.seen is not None and res is not None:
-            # progress measure: for every element the cancelled dividend monomial must strictly
-            # decrease (in the lexicographic order of the candidate search) from step to step;
-            # otherwise the descent argument that makes the loop finite is broken
+            # progress measure, independent of which monomial order the algorithm uses: under any
+            # monomial order the cancelled leading monomials of one element strictly decrease, so an
+            # element never cancels the same monomial twice; a repeat breaks the descent argument
+            # that makes the loop finite
             try:
                 idx1, _, include, _ = res
-                key = tuple(int(v) for v in numpy.asarray(x1.exponents)[idx1][::-1])
+                key = (tuple(x1.names), tuple(int(v) for v in numpy.asarray(x1.exponents)[idx1]))
                 inc = numpy.asarray(include).ravel()
                 for e in numpy.flatnonzero(inc):
-                    prev = MON.progress.get(int(e))
-                    if prev is not None and key >= prev:
+                    done = MON.progress.setdefault(int(e), set())
+                    if key in done:
                         tr = MON.trace
                         MON.reset()
                         raise DivisionLoop("no-progress", tr)
-                    MON.progress[int(e)] = key
+                    done.add(key)
             except DivisionLoop:
                 raise
             except Exception:
@@ -102,8 +109,8 @@ def install():
         # innermost call that owns the loop (shape != ()).
         top = MON.depth == 0
         MON.depth += 1
-        saved = (MON.seen, MON.trace, MON.progress)
-        MON.seen, MON.trace, MON.progress = set(), [], {}
+        saved = (MON.seen, MON.trace, MON.progress, MON.work)
+        MON.seen, MON.trace, MON.progress, MON.work = set(), [], {}, 0
         try:
             out = orig_divmod(dividend, divisor, *a, **k)
             n = len(MON.trace)
@@ -112,7 +119,7 @@ def install():
             return out
         finally:
             MON.depth -= 1
-            MON.seen, MON.trace, MON.progress = saved
+            MON.seen, MON.trace, MON.progress, MON.work = saved
             if top:
                 MON.depth = 0
 
